@@ -139,8 +139,35 @@ struct verif_grant_no {};
 template<typename Cfg, typename = void> struct verif_grant_base { using type = verif_grant_no; };
 template<typename Cfg> struct verif_grant_base<Cfg, std::enable_if_t<Cfg::can_grant>> { using type = verif_grant_yes; };
 
+// verif32 whose same-sandbox test is built on RLBox's own finder (the 3-parameter form of impl_is_in_same_sandbox, for
+// back ends whose memory is not aligned to its size): who owns an address is then decided by RLBox's sandbox_list
+struct verif_cfg32f : verif_cfg32
+{
+  static constexpr bool same_by_finder = true;
+};
+template<typename Cfg, typename Derived, typename = void>
+struct verif_same_base
+{
+  static inline bool impl_is_in_same_sandbox(const void* p1, const void* p2)
+  {
+    // (C09: the moment RLBox consults the back end in the middle of a range check is a moment at which the
+    //  adversary may rewrite sandbox memory)
+    if (verif_backend_hook) verif_backend_hook("be.same");
+    return verif_region_of(p1) == verif_region_of(p2);
+  }
+};
+template<typename Cfg, typename Derived>
+struct verif_same_base<Cfg, Derived, std::enable_if_t<Cfg::same_by_finder>>
+{
+  static inline bool impl_is_in_same_sandbox(const void* p1, const void* p2, Derived* (*finder)(const void*))
+  {
+    if (verif_backend_hook) verif_backend_hook("be.same");
+    return finder(p1) == finder(p2);
+  }
+};
+
 template<typename Cfg>
-class rlbox_verif_sandbox : public verif_grant_base<Cfg>::type
+class rlbox_verif_sandbox : public verif_grant_base<Cfg>::type, public verif_same_base<Cfg, rlbox_verif_sandbox<Cfg>>
 {
 public:
   using T_LongLongType = typename Cfg::llong_t;
@@ -334,13 +361,7 @@ protected:
     return reinterpret_cast<T*>(grant_answer);
   }
 
-  static inline bool impl_is_in_same_sandbox(const void* p1, const void* p2)
-  {
-    // (C09: the moment RLBox consults the back end in the middle of a range check is a moment at which the
-    //  adversary may rewrite sandbox memory)
-    if (verif_backend_hook) verif_backend_hook("be.same");
-    return verif_region_of(p1) == verif_region_of(p2);
-  }
+  using verif_same_base<Cfg, rlbox_verif_sandbox<Cfg>>::impl_is_in_same_sandbox;
 
   inline bool impl_is_pointer_in_sandbox_memory(const void* p)
   {
